@@ -128,8 +128,13 @@ def build_output(case):
     from superrec2.model.reconciliation import ReconciliationOutput, SuperReconciliationOutput
     lab = case.get("lab", 0)
     b = recon.Built(case["S"], case["O"], recon.default_costs(), labelled=lab > 0, unordered=lab == 2)
+    nm = case.get("nm", 0)
     for n, p in b.opath.items():
         n.name = "g_" + (p or "r")       # leaf names must look like <species>_<gene>
+        if nm and not n.is_leaf():
+            # at the API level ancestors need no names (nm = 1) and names need not be distinct (nm = 2):
+            # nodes are identified by object identity, never by name
+            n.name = "" if nm == 1 else "anc_1"
     mapping = {b.onode[p]: b.snode[s] for p, s, _, _ in sol_nodes(case["sol"])}
     if lab == 0:
         return b, ReconciliationOutput(b.input, mapping)
@@ -463,7 +468,7 @@ def make_cases(ctx, quick_small=(3, 3), n_mid=60, cap_mid=40, n_rand=300, tag="c
         nonlocal i
         lab, orient = combos[i % 6] if exhaustive_part else rng.choice(combos)
         i += 1
-        cases.append({"S": S, "O": with_syn(rng, O) if lab else O, "sol": sol, "lab": lab, "orient": orient,
+        cases.append({"nm": rng.choice([0, 0, 1, 2]), "S": S, "O": with_syn(rng, O) if lab else O, "sol": sol, "lab": lab, "orient": orient,
                       "sizes2": rand_sizes2(rng), "params2": rand_params2(rng)})
 
     n_small = 0
